@@ -304,7 +304,7 @@ func CheckC09(c *Ctx) int {
 	// unbounded counterpart of the model-checked invariants: the TLAPS proof that the contract keeps free and
 	// pending disjoint, meta-page-free and with one pending record per page, for every value of the constants
 	// (auxiliary: a proof about the specification alone never decides the verdict about the code)
-	if n, _, perr := RunTLAPS("FreelistProof", 20*time.Minute); perr == nil {
+	if n, _, perr := RunTLAPS("FreelistProof", 6*time.Minute); perr == nil {
 		c.Cov["tlaps_FreelistProof"] = fmt.Sprintf("all %d obligations proved (Disjoint, NoMetaPages, one pending record per page: inductive for every MaxPage / MaxTxid / MaxRun / MaxReaders)", n)
 	} else {
 		c.Cov["tlaps_FreelistProof"] = "not re-checked in this run: " + perr.Error()
